@@ -286,14 +286,13 @@ theorem subInv_instStop (s : Stack) (i : Nat) (hi : SubInv s) : SubInv (s.instSt
     · rename_i tid htid
       simp only []
       apply subInv_subsStopAll
-      have hx' : (s.cancelTask (.offer i, tid)).getInst i = some x := by
-        have : spi (s.cancelTask (.offer i, tid)) = spi s := spi_cancelTask _ _
+      have hx' : ((s.logOffer i .stop).cancelTask (.offer i, tid)).getInst i = some x := by
         unfold getInst
-        have hinst : (s.cancelTask (.offer i, tid)).instances = s.instances := by
+        have hinst : ((s.logOffer i .stop).cancelTask (.offer i, tid)).instances = s.instances := by
           unfold cancelTask; split; rfl; split; rfl; split <;> rfl
         rw [hinst]; exact hx
-      have h1 : SubInv ((s.cancelTask (.offer i, tid)).setInst i { x with task := none, canAnswer := false }) :=
-        subInv_setInst_same _ i x _ hx' rfl (subInv_frame (spi_cancelTask _ _) hi)
+      have h1 : SubInv (((s.logOffer i .stop).cancelTask (.offer i, tid)).setInst i { x with task := none, canAnswer := false }) :=
+        subInv_setInst_same _ i x _ hx' rfl (subInv_frame ((spi_cancelTask _ _).trans (spi_logOffer _ _ _)) hi)
       split
       · exact subInv_sendOffer _ _ _ _ h1
       · exact h1
